@@ -39,6 +39,8 @@ def execute(spec, ctx):
             findcheck.oracle_indices_only(ctx, structure, pattern, spec, res, script)
     if spec["seed"] % 3 == 0:
         findcheck.reuse_phase(ctx, spec, structure, pattern, "c01")
+    elif spec["seed"] % 3 == 1:
+        findcheck.relisted_phase(ctx, spec, structure, "c01")
     if seams.global_rng_touched(ctx):
         ctx.count("global_rng_touched")
     if total and len(spec["pattern"]["elements"]) >= 2:
